@@ -1,6 +1,8 @@
 """C05 - IWA container arithmetic: chunk framing on encode, frame walking on decode, independence of chunking."""
 import numbers_parser.iwafile as iwamod
-from numbers_parser.iwafile import IWACompressedChunk, is_iwa_file
+from google.protobuf.internal.decoder import _DecodeVarint32
+from google.protobuf.internal.encoder import _EncodeVarint, _VarintBytes
+from numbers_parser.iwafile import IWAArchiveSegment, IWACompressedChunk, is_iwa_file
 
 from pysym.api import BoolDom, BVDom, Cases, Harness, IntDom, assume, concretize, cover, nondet_bool, nondet_int, opaque_bytes
 
@@ -111,11 +113,107 @@ def h05b_sniff(n1, extra):
         assert not is_iwa_file(frames + b"\x01\x00\x00\x00")
 
 
+# ------------------------------------------------------------------------------------------------ segment layer
+HEADERS = []
+
+
+class FakeInfo:
+    def __init__(self, type_id, length):
+        self.type = type_id
+        self.length = length
+        self.base_message_index = 0
+
+
+class FakeHeader:
+    """ArchiveInfo seen from the framing code: a size, the serialised bytes (opaque), the message_infos"""
+
+    def __init__(self, size, infos):
+        self.size = size
+        self.message_infos = infos
+        self.should_merge = False
+        self.identifier = 1
+        self.blob = opaque_bytes("header", size)
+        HEADERS.append(self)
+
+    def ByteSize(self):
+        return self.size
+
+    def SerializeToString(self):
+        return self.blob
+
+    def __repr__(self):
+        return "<header>"
+
+
+class FakeArchiveInfo:
+    """ArchiveInfo.FromString: gives back the header whose serialised bytes these are (protobuf contract), fails otherwise"""
+
+    @staticmethod
+    def FromString(buf):
+        for h in HEADERS:
+            if h.blob == buf:
+                return h
+        raise ValueError("not an ArchiveInfo")
+
+
+class FakeMsg:
+    def __init__(self, blob):
+        self.blob = blob
+
+    def SerializeToString(self):
+        return self.blob
+
+    @staticmethod
+    def FromString(buf):
+        return FakeMsg(buf)
+
+
+def read_varint(buf):
+    """independent base-128 reader: (value, number of bytes)"""
+    value = 0
+    shift = 0
+    i = 0
+    while True:
+        assert i < 5
+        b = buf[i]
+        value += (b % 128) * (2 ** shift)
+        i += 1
+        if b < 128:
+            return value, i
+        shift += 7
+
+
+def h05c_segment(H, m1, m2, stale1, stale2, two, trailing):
+    """segment framing: varint(header size) + header + messages. The prefix decodes to the header size, the recorded
+    message lengths equal the message sizes (stale ones are corrected), and decoding gives back the same header, the
+    same message bytes and exactly the bytes that follow the segment"""
+    del HEADERS[:]
+    sizes = [m1, m2] if two else [m1]
+    stale = [stale1, stale2]
+    infos = [FakeInfo(1, sizes[i] + (3 if stale[i] else 0)) for i in range(len(sizes))]
+    header = FakeHeader(H, infos)
+    objs = [FakeMsg(opaque_bytes("msg-%d" % i, sizes[i])) for i in range(len(sizes))]
+    seg = IWAArchiveSegment(header, objs)
+    buf = seg.to_buffer()
+    for i in range(len(sizes)):
+        assert infos[i].length == sizes[i]                      # header lengths equal the message sizes
+    n, used = read_varint(buf)
+    assert n == H
+    assert len(buf) == used + H + sum(sizes)
+    rest = opaque_bytes("next-segment", trailing)
+    seg2, remainder = IWAArchiveSegment.from_buffer(buf + rest)
+    assert seg2.header is header
+    assert len(seg2.objects) == len(objs)
+    for a, b in zip(seg2.objects, objs):
+        assert a.blob == b.blob
+    assert remainder == rest
+
+
 STUBS = ["snappy.compress / uncompress: contract stub (active natively too): arbitrary payload of length <= 32 + n + n/6; "
          "uncompress inverts compress and fails on other payloads",
          "archive segments' to_buffer: opaque byte string of symbolic length"]
 OUT = ["bytes inside protobuf messages and snappy blocks (C libraries)", "unknown-field preservation", "the ~5200 fixture archives",
-       "segment layer (IWAArchiveSegment.from_buffer / to_buffer: protobuf ArchiveInfo parsing)"]
+       "ArchiveInfo / message (de)serialisation itself (protobuf, C level)"]
 HARNESSES = [
     Harness("H05a", h05a_encode, lambda tier: dict(L=IntDom(0, 2 * 65536 + 1 if tier == "quick" else 4 * 65536 + 1)),
             bounds="uncompressed stream length symbolic in [0, 131073] (quick) / [0, 262145] (thorough): 0, 65535, 65536, 65537, 131072 "
@@ -129,4 +227,18 @@ HARNESSES = [
     Harness("H05b-sniff", h05b_sniff, dict(n1=IntDom(0, 2 ** 24 - 1), extra=BoolDom()),
             bounds="one frame of symbolic length, optionally followed by 4 bytes that are not a frame", stubs=STUBS[:1]),
 ]
+HARNESSES.append(
+    Harness("H05c", h05c_segment,
+            lambda tier: dict(H=IntDom(0, 2 ** 21), m1=IntDom(0, 2 ** 21), m2=IntDom(0, 2 ** 21), stale1=BoolDom(), stale2=BoolDom(),
+                              two=Cases([False, True]), trailing=IntDom(0, 2 ** 21)),
+            bounds="header size, message sizes and the number of bytes following the segment: every value 0..2^21 (symbolic): every "
+                   "1-, 2-, 3- and 4-byte varint boundary (127/128, 16383/16384, 2097151/2097152) is inside; 1 or 2 messages; "
+                   "recorded message lengths correct or stale",
+            stubs=["ArchiveInfo / message records = attribute bags whose serialised form is an opaque byte string of symbolic "
+                   "length; ArchiveInfo.FromString inverts SerializeToString (protobuf contract)",
+                   "protobuf's pure-Python varint helpers (_VarintBytes/_EncodeVarint, _DecodeVarint32) are interpreted from their "
+                   "source like repository code"],
+            outside=OUT,
+            patches=[(iwamod, "ArchiveInfo", FakeArchiveInfo), (iwamod, "ID_NAME_MAP", {1: FakeMsg})],
+            interpret=[_VarintBytes, _EncodeVarint, _DecodeVarint32]))
 PROPERTY = "C05"
